@@ -54,6 +54,10 @@ Schemas == <<
      Tk("\n", "out"), Tk("]", "out") >>,
   << Tk("{", ""), Tk("\n", "out"), Tk("\"a\"", "out"), Tk(":", "out"), Tk("1", "il"), Tk(",", "il"), Tk("//", ""), Tk("\n", "out"),
      Tk("\"b\"", "out"), Tk(":", "out"), Tk("2", "il"), Tk("//", "il"), Tk("{", "il"), Tk("optional", "il"), Tk(":", "il"), Tk("true", "il"), Tk("}", ""), Tk("\n", "out"), Tk("}", "out") >>,
+  \* characters outside ASCII in keys, strings, a note and an enum value
+  << Tk("{", ""), Tk("\n", "out"), Tk("\"ключ\"", "out"), Tk(":", "out"), Tk("\"значение €\"", "il"), Tk(",", "il"), Tk("//", "il"), Tk("{", "il"), Tk("minLength", "il"), Tk(":", "il"), Tk("2", "il"),
+     Tk("}", "il"), Tk("-", "il"), Tk("заметка é", ""), Tk("\n", "out"), Tk("\"é\"", "out"), Tk(":", "out"), Tk("\"ß\"", "il"), Tk("/*", "ml"), Tk("{", "ml"), Tk("enum", "ml"), Tk(":", "ml"), Tk("[", "ml"),
+     Tk("\"ß\"", "ml"), Tk(",", "ml"), Tk("\"日本\"", "ml"), Tk("]", "ml"), Tk("}", "ml"), Tk("*/", "out"), Tk("}", "out") >>,
   \* DOCUMENTS (validated against the first schema above): white space between any two tokens, nothing else
   << Tk("{", "ws"), Tk("\"a\"", "ws"), Tk(":", "ws"), Tk("1", "ws"), Tk(",", "ws"), Tk("\"b\"", "ws"), Tk(":", "ws"), Tk("[", "ws"), Tk("true", "ws"), Tk(",", "ws"), Tk("7", "ws"),
      Tk("]", "ws"), Tk(",", "ws"), Tk("\"abc\"", "ws"), Tk(":", "ws"), Tk("\"s\"", "ws"), Tk("}", "ws") >>,
@@ -62,8 +66,8 @@ Schemas == <<
   \* an enum RULE (rules/enum): its own scanner, its own comments
   << Tk("[", "en"), Tk("1", "en"), Tk(",", "en"), Tk("\"a\"", "en"), Tk(",", "en"), Tk("null", "en"), Tk(",", "en"), Tk("2.5", "en"), Tk("]", "en") >>
 >>
-IsDoc(i) == i \in {13, 14}
-IsEnum(i) == i = 15
+IsDoc(i) == i \in {14, 15}
+IsEnum(i) == i = 16
 Fillers(g) ==
   CASE g = "out" -> {" ", "\t", "\n", "\r\n", "\r", " # c\n", "#\n", " ### c ### ", "###\nc\n###\n", "  \n\n  "}
     [] g = "ml"  -> {" ", "\t", "\n", "\r\n", " \n\t"}
